@@ -80,6 +80,7 @@ var c15Paths = []string{
 	// an element that merely ends in "vendor"; a path that has the target path as a proper suffix
 	"example.com/shop/multivendor/model", "mirror.example.com/mod/target", "xexample.com/mod/target",
 	"example.com/größen", "example.com/包/v2",
+	"example.com/tools/c++/nodes", "example.com/a+b",
 }
 
 var c15Names = []string{"T", "Name", "List", "M", "P", "x", "T2", "_t", "Größe", "Nœud", "型"}
@@ -459,7 +460,7 @@ func TestC15(t *testing.T) {
 	r := ev.Begin(t, ev.Meta{
 		ID:    "C15",
 		Level: "exploration",
-		Rule: "reference trees from ref ::= [path '.'] ident ['[' ref {',' ref} ']'] with depth <= 4, width <= 4, paths from a pool of 31 " +
+		Rule: "reference trees from ref ::= [path '.'] ident ['[' ref {',' ref} ']'] with depth <= 4, width <= 4, paths from a pool of 33 " +
 			"(std, dotted hosts, vN, apis/domain, punctuation variants, the target package), printed by the harness and fed to ParseTypeRef, " +
 			"ParseRef, Ref, PkgImportPathAndExpose and snippet.ID/PkgExpose; non-trivial = depth >= 2 and >= 2 arguments at some level; " +
 			"distinct by JSON encoding; the enumerate sub lists every tree up to a node bound over 6 labels",
